@@ -80,7 +80,14 @@ def check(R, F):
         R.require(allthree, 'verify-order', vc.gpath + '|ok-only-on-success-edges', vc.where(oks[0]), 'Ok only after all three checks succeeded', 'Ok is reachable without the success of every check (size, MAC, time)')
         # MAC failure maps to BadSig, and the MAC verified is the record's MAC
         orr = [t for b, t in vc.calls() if callee_name(t).endswith('Result::<T, E>::or')]
-        R.require(len(orr) == 1 and 'VerificationError::BadSig' in paths.show_operand(vc, orr[0]['args'][1]), 'verify-order', vc.gpath + '|mac-mismatch-is-badsig', vc.where(), 'MAC mismatch -> BadSig', 'a MAC mismatch is not mapped to BadSig')
+        form_or = len(orr) == 1 and 'VerificationError::BadSig' in paths.show_operand(vc, orr[0]['args'][1])
+        if not form_or:
+            # written out: `if verify(..).is_err() { return Err(BadSig) }` / a match on Err -- BadSig is built exactly
+            # where the MAC verification is known to have failed
+            from qv.rulelib import failed_before
+            bs = [b_ for b_, bl in enumerate(vc.blocks) if not bl['cleanup'] for st in bl['stmts'] if st['k'] == 'assign' and st['rv']['k'] == 'agg' and st['rv']['def'].endswith('VerificationError::BadSig')]
+            form_or = len(bs) >= 1 and all(failed_before(vc, b_, is_vtl) for b_ in bs)
+        R.require(form_or, 'verify-order', vc.gpath + '|mac-mismatch-is-badsig', vc.where(), 'MAC mismatch -> BadSig', 'a MAC mismatch is not mapped to BadSig')
         mac_arg = paths.show_operand(vc, vc.blocks[vtl]['term']['args'][1])
         R.require(mac_arg == 'ReadTsigRr::mac(arg1)', 'verify-order', vc.gpath + '|verifies-record-mac', vc.where(vtl), 'verifies self.mac()', 'verify_truncated_left is given %s' % mac_arg)
     R.floor('verify-order', 5)
